@@ -1275,6 +1275,110 @@ pub fn run_seq(ctx: &Ctx) {
 }
 
 // =================================================================================================
+// C08 at signal level: carrier activity inside the hold time
+
+/// Suite `sighold`: a header (two or three bursts; a lost burst is silence, or keeps its preamble
+/// but has its `ZCZC` prefix destroyed) followed, inside or around the 1.31 s hold, by channel
+/// activity that produces no burst: aborted preamble key-ups, periodic carrier blips, noise, tone.
+/// The pending StartOfMessage must still be released by the first idle moment after its deadline.
+pub fn run_hold(ctx: &Ctx) {
+    let mut out = Out::create(&ctx.out_dir, "sighold");
+    let kinds = ["keyup_abort", "prefix_destroyed", "blips", "noise_burst", "tone_burst", "quiet", "late_keyup", "garbage_burst"];
+    let n = if ctx.tier_thorough { 1600 } else { 48 };
+    for i in 0..n {
+        if !ctx.want(i) {
+            continue;
+        }
+        let mut rng = case_rng(ctx.seed, 0xC08, i);
+        let kind = kinds[i % kinds.len()];
+        let rate = if ctx.tier_thorough { pick_rate(&mut rng, i).min(48000) } else { *rng.pick(&[8000u32, 22050, 48000]) };
+        let mut lg = gen_line(&mut rng, rate);
+        lg.line.noise_rel = 0.0;
+        lg.line.baud_err = 0.0;
+        let h = gen_header_any(&mut rng).text().into_bytes();
+        let mut a = Audio::new(lg.line.clone());
+        a.silence(0.4, &mut rng);
+        // which of the three bursts are sent intact; for prefix_destroyed the third keeps only its preamble
+        let mask = if kind == "prefix_destroyed" { 6u8 } else { *rng.pick(&[7u8, 7, 6, 5, 3]) };
+        for k in 0..3 {
+            if mask & (4 >> k) != 0 {
+                a.burst(16, &h, &mut rng);
+            } else if kind == "prefix_destroyed" {
+                // intact preamble, then bytes that are neither ZCZC nor NNNN: the framer gives up its search
+                let mut p: Vec<u8> = (0..4).map(|_| *rng.pick(b"QXJ#%&")).collect();
+                p.extend_from_slice(&h[4..]);
+                a.burst(16, &p, &mut rng);
+            } else {
+                a.silence(8.0 * (16 + h.len()) as f64 / BAUD, &mut rng);
+            }
+            if k < 2 {
+                a.silence(lg.pause, &mut rng);
+            }
+        }
+        match kind {
+            "keyup_abort" | "late_keyup" => {
+                // a transmitter keys up, sends part of a preamble and drops
+                let at = if kind == "keyup_abort" { 0.2 + rng.unit() * 1.0 } else { 1.0 + rng.unit() * 0.5 };
+                a.silence(at, &mut rng);
+                let np = rng.range(4, 14) as usize;
+                a.burst(np, &[], &mut rng);
+                a.silence(4.0, &mut rng);
+            }
+            "blips" => {
+                let every = 0.5 + rng.unit() * 0.6;
+                let nblips = rng.range(4, 10);
+                for _ in 0..nblips {
+                    a.silence(every, &mut rng);
+                    let np = rng.range(6, 10) as usize;
+                    a.burst(np, &[], &mut rng);
+                }
+                a.silence(4.0, &mut rng);
+            }
+            "noise_burst" => {
+                a.silence(0.2 + rng.unit() * 0.9, &mut rng);
+                let secs = 0.2 + rng.unit() * 1.5;
+                noise(&mut a, &mut rng, secs);
+                a.silence(4.0, &mut rng);
+            }
+            "tone_burst" => {
+                a.silence(0.2 + rng.unit() * 0.9, &mut rng);
+                tone(&mut a, if rng.chance(1, 2) { MARK_HZ } else { SPACE_HZ }, 0.2 + rng.unit() * 1.5);
+                a.silence(4.0, &mut rng);
+            }
+            "garbage_burst" => {
+                // a complete burst of something else inside the hold: legitimately re-arms the hold
+                a.silence(0.2 + rng.unit() * 0.9, &mut rng);
+                let mut p = b"ZCZC-".to_vec();
+                p.extend((0..rng.range(5, 60)).map(|_| *rng.pick(CALL_CHARS)));
+                a.burst(16, &p, &mut rng);
+                a.silence(4.0, &mut rng);
+            }
+            _ => a.silence(4.0, &mut rng),
+        }
+        ctx.dump("sighold", i, &a.samples);
+        let mut r = build(Cfg::Samedec, rate);
+        let (evs, taps) = run_tapped(&mut r, &a.samples);
+        let label = format!("sighold.{}.m{:03b}.rate{}.case={}", kind, mask, rate, i);
+        let (op, imp) = link_op(&taps);
+        out.op(&op, &imp, true);
+        let (op, imp) = rx_op(rate, &taps, &evs);
+        out.op(&op, &imp, true);
+        let evline = show_events(&evs);
+        let expect = if kind == "garbage_burst" { "-".to_owned() } else { hex(&h) };
+        out.spec(&format!("spec.sig c08hold {};{} [{}] => {}", rate, expect, label, evline));
+        out.spec(&format!("spec.sig c04 {} [{}] => {}", rate, label, evline));
+        out.spec(&format!("spec.sig c13life - [{}] => {}", label, evline));
+        out.count(&format!("kind:{}", kind));
+        out.count(&format!("mask:{:03b}", mask));
+        let soms = evs.iter().filter(|e| matches!(e.message_ok(), Some(sameold::Message::StartOfMessage(_)))).count();
+        out.count(&format!("soms:{}", soms));
+        let bursts = evs.iter().filter(|e| e.burst().is_some()).count();
+        out.count(&format!("bursts:{}", bursts));
+    }
+    out.finish(&ctx.out_dir, "sighold", &[]);
+}
+
+// =================================================================================================
 // C07 at signal level: bit phase at the start of a transmission
 
 /// Suite `sigphase`: single bursts preceded by lead-in bits at another bit phase (random bits,
